@@ -191,8 +191,9 @@ def _check_edge_state(case, ctx, e, verts, kinds, label):
         ctx.event("kinds:" + "+".join(kinds))
         ctx.nontrivial(len(set(kinds)) >= 2 or len(kinds) == 3)
     ops = [gs.stored(v.pose) for v in verts]
-    S_ = max([gs.max_trans((k, o)) for k, o in zip(kinds, ops)] + ([gs.max_trans(case["z"])] if isinstance(case["z"], dict) else [max(abs(x) for x in case["z"])]))
     z = CE.estimate_to_list(e)
+    # magnitude of everything the error is computed from: the vertex poses and the edge's CURRENT measurement
+    S_ = max([gs.max_trans((k, o)) for k, o in zip(kinds, ops)] + [max(abs(float(x)) for x in z)])
     e_ref, J_ref = CE.ref_error_and_jacobians(tag, kinds, ops, z)
     e_code = np.atleast_1d(np.array(e.calc_error(), dtype=float))
     tol_e = 1e-10 * (1 + S_)
